@@ -1,7 +1,9 @@
 package rest
 
 import (
+	"errors"
 	"net/http"
+	"sync"
 	"time"
 
 	"github.com/gorilla/websocket"
@@ -32,11 +34,16 @@ var upgraderV2 = websocket.Upgrader{
 	WriteBufferSize: 1024,
 }
 
+// errListenerClosedV2 tells the msghub to stop sending events to a listener.
+var errListenerClosedV2 = errors.New("websocket listener closed")
+
 // msgListenerV2 handles messages from the msghub
 type msgListenerV2 struct {
-	hub     *msghub.Hub                    // Global message hub.
-	c       chan *model.JSONMonitorEventV2 // Queue of incoming events.
-	mailbox string                         // Name of mailbox to monitor, "" == all mailboxes.
+	hub       *msghub.Hub                    // Global message hub.
+	c         chan *model.JSONMonitorEventV2 // Queue of incoming events, never closed.
+	done      chan struct{}                  // Closed when this listener has shut down.
+	closeOnce sync.Once                      // Guards done.
+	mailbox   string                         // Name of mailbox to monitor, "" == all mailboxes.
 }
 
 // newMsgListenerV2 creates a listener and registers it.  Optional mailbox parameter will restrict
@@ -45,6 +52,7 @@ func newMsgListenerV2(hub *msghub.Hub, mailbox string) *msgListenerV2 {
 	ml := &msgListenerV2{
 		hub:     hub,
 		c:       make(chan *model.JSONMonitorEventV2, 100),
+		done:    make(chan struct{}),
 		mailbox: mailbox,
 	}
 	hub.AddListener(ml)
@@ -59,12 +67,10 @@ func (ml *msgListenerV2) Receive(msg event.MessageMetadata) error {
 	}
 
 	// Enqueue for websocket.
-	ml.c <- &model.JSONMonitorEventV2{
+	return ml.enqueue(&model.JSONMonitorEventV2{
 		Variant: "message-stored",
 		Header:  metadataToHeader(&msg),
-	}
-
-	return nil
+	})
 }
 
 // Delete handles a deleted message.
@@ -75,15 +81,38 @@ func (ml *msgListenerV2) Delete(mailbox string, id string) error {
 	}
 
 	// Enqueue for websocket.
-	ml.c <- &model.JSONMonitorEventV2{
+	return ml.enqueue(&model.JSONMonitorEventV2{
 		Variant: "message-deleted",
 		Identifier: &model.JSONMessageIDV2{
 			Mailbox: mailbox,
 			ID:      id,
 		},
-	}
+	})
+}
 
-	return nil
+// enqueue queues an event for the websocket writer without ever blocking the msghub.  A listener
+// that has shut down, or whose peer is not keeping up, returns an error so the hub drops it.
+func (ml *msgListenerV2) enqueue(event *model.JSONMonitorEventV2) error {
+	select {
+	case <-ml.done:
+		return errListenerClosedV2
+	default:
+	}
+	select {
+	case ml.c <- event:
+		return nil
+	default:
+		// Queue is full, give up on this peer.
+		ml.shutdown()
+		return errListenerClosedV2
+	}
+}
+
+// shutdown tells the websocket writer to exit.
+func (ml *msgListenerV2) shutdown() {
+	ml.closeOnce.Do(func() {
+		close(ml.done)
+	})
 }
 
 // WSReader makes sure the websocket client is still connected, discards any messages from client
@@ -136,14 +165,16 @@ func (ml *msgListenerV2) WSWriter(conn *websocket.Conn) {
 	// Handle messages from hub until msgListener is closed
 	for {
 		select {
-		case event, ok := <-ml.c:
+		case <-ml.done:
+			// msgListener closed, exit
+			if err := conn.SetWriteDeadline(time.Now().Add(writeWaitV2)); err != nil {
+				slog.Warn().Err(err).Msg("Failed to set write deadline for close")
+			}
+			_ = conn.WriteMessage(websocket.CloseMessage, []byte{})
+			return
+		case event := <-ml.c:
 			if err := conn.SetWriteDeadline(time.Now().Add(writeWaitV2)); err != nil {
 				slog.Warn().Err(err).Msg("Failed to set write deadline for msg")
-			}
-			if !ok {
-				// msgListener closed, exit
-				_ = conn.WriteMessage(websocket.CloseMessage, []byte{})
-				return
 			}
 			if conn.WriteJSON(event) != nil {
 				// Write failed
@@ -163,15 +194,10 @@ func (ml *msgListenerV2) WSWriter(conn *websocket.Conn) {
 	}
 }
 
-// Close removes the listener registration
+// Close removes the listener registration, it is safe to call more than once.
 func (ml *msgListenerV2) Close() {
-	select {
-	case <-ml.c:
-		// Already closed
-	default:
-		ml.hub.RemoveListener(ml)
-		close(ml.c)
-	}
+	ml.shutdown()
+	ml.hub.RemoveListener(ml)
 }
 
 // MonitorAllMessagesV2 is a web handler which upgrades the connection to a websocket and notifies
